@@ -71,7 +71,16 @@ def exec_session(job):
     for fb in scj["fb"]:
         stream += bytearray(fb)
     sim.reset_random(1)
-    ev = vsock.session(chunks_of(stream, sizes), addr=("10.0.0.1", 4000), delay=delay, size=sc.get("limit"))     # (the --size option)
+    zero = len(job) > 3 and job[3] == "zero-draw"     # the random source draws 0 (twice) when the session handle is chosen
+    if zero:
+        import random
+        real, draws = random.randint, [0, 0]
+        random.randint = lambda a, b: draws.pop(0) if draws and a == 0 else real(a, b)
+    try:
+        ev = vsock.session(chunks_of(stream, sizes), addr=("10.0.0.1", 4000), delay=delay, size=sc.get("limit"))     # (the --size option)
+    finally:
+        if zero:
+            random.randint = real
     final = dev.get_mem()
     nacc = acc[0]
     # the listener / other sessions keep working: a new connection registers and lists services
